@@ -173,6 +173,24 @@ def get_item(value, idx):
     return value[idx]
 
 
+def rewrite_item(itemtype, buffer, offset, value):
+    """Overwrite an existing field or item in place. A dynamically sized one
+    (a string) must fit in the space fixed at creation, which is kept."""
+    info = None
+    if itemtype._size is None:
+        info = itemtype._inspect_args(value)
+        capacity = Int64._from_buffer(buffer, offset)
+        needed = info.size
+        if hasattr(info, "data"):  # size word, data, terminator
+            needed = 8 + len(info.data) + 1
+        if needed > capacity:
+            raise ValueError(
+                f"{value!r} needs {needed} bytes, only {capacity} available"
+            )
+        info.size = capacity
+    itemtype._to_buffer(buffer, offset, value, info)
+
+
 def bound_check(index, shape):
     for ii, ss in zip(index, shape):
         if ii < 0 or ii >= ss:
@@ -614,7 +632,7 @@ class Array(metaclass=MetaArray):
                     + cls._data_offset
                     + get_offset(index, self._strides)
                 )
-            cls._itemtype._to_buffer(self._buffer, offset, value)
+            rewrite_item(cls._itemtype, self._buffer, offset, value)
 
     def _update(self, value):
         if is_integer(value):
